@@ -1782,3 +1782,35 @@ def _():
     V = space(m)
     u, v = TrialFunction(V), TestFunction(V)
     return u * v * ds + 2.0 * u * v * ds(1) + 5.0 * u * v * ds((4, 2))
+
+
+# ---- blocked (vector/tensor valued) bilinear forms whose component blocks are identical ----------------
+
+def _vec_bilinear(cell, variant):
+    m = mesh(cell)
+    gd = GD[cell]
+    V = space(m, shape=(gd,)) if variant != "tensor" else space(m, shape=(gd, gd))
+    u, v = TrialFunction(V), TestFunction(V)
+    if variant == "mass":
+        return inner(u, v) * dx
+    if variant == "stiff":
+        return inner(grad(u), grad(v)) * dx
+    if variant == "tensor":
+        return inner(u, v) * dx
+    if variant == "facet":
+        return inner(u, v) * ds + inner(u("+"), v("-")) * dS
+    raise ValueError(variant)
+
+
+for _cell in ["interval", "triangle", "quadrilateral", "tetrahedron"]:
+    for _var in ["mass", "stiff", "tensor", "facet"]:
+        if _cell == "interval" and _var in ("tensor",):
+            continue
+        if _cell == "tetrahedron" and _var in ("tensor", "facet", "stiff"):
+            continue
+
+        def _mk(cell=_cell, var=_var):
+            return _vec_bilinear(cell, var)
+
+        _it = ("exterior_facet", "interior_facet") if _var == "facet" else ("cell",)
+        reg(f"vec_bilinear_{_var}_{_cell}", ("c02" if _var == "facet" else "c01") + " c07 c08 c10 c17 c18" + (" q" if _cell in ("triangle", "interval") else ""), itypes=_it)(_mk)
